@@ -4,8 +4,7 @@ import warnings
 
 import falcon.testing as ft
 
-from drivers._data_util import judge_dedup
-from vf import table
+from drivers._data_util import enumerate_cases, judge_dedup
 from vf.core import Ctx
 from vf.tlc import Raw
 
@@ -13,7 +12,9 @@ META = {
     "engine": "data",
     "text": "Xfcc.tla defines the XFCC grammar on characters (a left-to-right scanner over the delimiter alphabet "
             "{, ; = \" \\ key-letter value-char}) and reports every value as position-identified tokens.  TLC enumerates "
-            "all strings over the alphabet up to a length bound, all strings 'k=' + tail up to the same bound, and a "
+            "all strings over the alphabet up to length 4 (quick) / 6 (thorough), all strings 'k=' + tail with tails up to "
+            "length 4 / 6 (every grammar-valid header starts with a key: this reaches all valid headers of length 6 / 8 that "
+            "start with a one-letter key), and a "
             "structured family of longer valid headers (quoted values containing fake pairs/elements, escaped quotes, "
             "escaped backslashes), each with its reference parse, and checks five sanity invariants that tie the "
             "scanner to an independent quote-parity reading.  Every string is concretised (real Envoy key names, unique "
@@ -128,10 +129,10 @@ def run(ctx: Ctx) -> None:
     from vgi_rpc.rpc import AuthContext
 
     quick = ctx.quick
-    consts = {"MaxLen": 4 if quick else 5, "TailLen": 4 if quick else 6, "FamilyDepth": 1 if quick else 2,
+    consts = {"MaxLen": 4 if quick else 6, "TailLen": 4 if quick else 6, "FamilyDepth": 1 if quick else 2,
               "Alphabet": Raw('{",", ";", "=", "q", "b", "k", "v"}')}
     invs = ["ElemsAreTopLevelCommas", "PairsAreTopLevelSemis", "EveryLetterOnce", "NonEmptyElems", "QuotesOnlyEscaped"]
-    cases = table.enumerate_cases(ctx, "data", "Xfcc", constants=consts, invariants=invs, timeout=1500)
+    cases = enumerate_cases(ctx, "data", "Xfcc", constants=consts, invariants=invs)
     ctx.exhaustive = True
     ctx.rule = ("case = one header value (absent | string over the 7-symbol delimiter alphabet), enumerated by TLC from "
                 "Xfcc!Cases with its reference parse; non-trivial = distinct (concrete header text, select_element, leg) "
@@ -188,7 +189,7 @@ def run(ctx: Ctx) -> None:
                             ctx.violation("OnlyAuthFailure", {"cls": "invalid", "exc": out, "sel": sel, "leg": leg},
                                           {"header": hdr, "abstract": "".join(s), "exception": repr(r)})
             continue
-        nvar = 1 if cls != "valid" else (2 if quick else 3)
+        nvar = 1 if cls != "valid" else (2 if quick else 4)
         for vi in range(nvar):
             rng = random.Random(f"{ctx.seed}|{ci}|{vi}")
             hdr, names, tb = concretize(s, exp, vi, rng)
@@ -227,7 +228,9 @@ def run(ctx: Ctx) -> None:
     for r in valid_recs[:: max(1, len(valid_recs) // 5)][:5]:
         ctx.sample({"abstract_header": "".join(r["case"]["s"]), "concrete_header": r["_hdr"],
                     "observed_raw": r["_raw"], "observed_tokens": {k: r["obs"][k] for k in ("first", "last")}})
-    bad = judge_dedup(ctx, "data", "Xfcc", records, constants=consts)
+    # Conforms does not depend on the case-space constants; the judge runs get the smallest ones so that TLC does not
+    # rebuild the whole case set at every start
+    bad = judge_dedup(ctx, "data", "Xfcc", records, constants={**consts, "MaxLen": 0, "TailLen": 0, "FamilyDepth": 0})
     for idx, clauses in bad:
         r = records[idx]
         for cl in clauses:
